@@ -61,6 +61,13 @@ class DictLikeModel(BaseModel):
         if data:
             self._data.update(data)
 
+    def __copy__(self) -> "DictLikeModel":
+        # pydantic's shallow copy duplicates the container of private attributes but
+        # not the `_data` dict inside it; give the copy its own dict of dynamic fields.
+        copied = super().__copy__()
+        copied._data = dict(self._data)
+        return copied
+
     def __getattr__(self, __name: str) -> Any:
         if (
             __name in self.__private_attributes__
